@@ -642,7 +642,12 @@ def check(ctx):
             r3.bad(V(r3.id, "EventParser::handle_method_call", "methods:%s" % ",".join(sorted(names)), "recognised emit methods are %s" % sorted(names)))
     esl = S.fn("EventParser", "extract_string_literal")
     if esl is not None:
+        import json as _json
         t = " ".join(pat_text(e["pat"]) for e in walk_block(esl.body) if e.get("k") == "letcond")
+        # (the same test written as one match arm with a nested pattern: `Expr::Lit(ExprLit { lit: Lit::Str(s), .. }) => Some(s.value())`)
+        raw = _json.dumps([e["pat"] for e in walk_block(esl.body) if e.get("k") == "letcond"] + [a_["pat"] for e in walk_block(esl.body) if e.get("k") == "match" for a_ in e["arms"]])
+        if re.search(r'"Lit", "Str"\]', raw):
+            t += " Lit::Str"
         if "Lit::Str" in t and ".value()" in " ".join(expr_text(e) for e in walk_block(esl.body)):
             r3.ok("event name = Lit::Str value")
         else:
